@@ -332,7 +332,7 @@ func taintSet(names []string) map[string]bool {
 	return m
 }
 
-var queries = []string{".Individuals", ".Individuals | .Name", ".Individuals | .Name | .String", ".Individuals | { name: .Name | .String, born: .Birth | .String }", ".Families", ".Sources", ".Nodes", ".Individuals | .Nodes", ".Warnings", ".Individuals | .String", "?"}
+var queries = []string{".Individuals", ".Individuals | .Name", ".Individuals | .Name | .String", ".Individuals | { name: .Name | .String, born: .Birth | .String }", ".Families", ".Sources", ".Nodes", ".Individuals | .Nodes", ".Warnings", ".Individuals | .String", "?", ".Places", ".Individuals | .SpouseChildren", ".Individuals | .Places"}
 
 func surfaces() []string {
 	out := []string{"publish-show", "publish-hide", "publish-placeholder", "warnings"}
@@ -476,7 +476,7 @@ func judge(k kase) (fs []finding, pages int, taintSeen bool) {
 	return
 }
 
-func cases() []kase {
+func cases(tier string) []kase {
 	var out []kase
 	for _, s := range surfaces() {
 		out = append(out, kase{Tainted: []string{"*"}, Surface: s}, kase{Tainted: nil, Surface: s})
@@ -488,9 +488,12 @@ func cases() []kase {
 	n := len(out)
 	for i := 0; i < n; i++ {
 		if out[i].Tainted != nil {
-			k := out[i]
-			k.Suffix = "&nbsp;z"
-			out = append(out, k)
+			// a literal entity after the token (values that look "already escaped")
+			for _, sfx := range []string{"&nbsp;z", "&amp;z", "&#39;&lt;z"} {
+				k := out[i]
+				k.Suffix = sfx
+				out = append(out, k)
+			}
 			// ... and with a special character as the very first character of the value
 			for _, lead := range []string{"<", "\"", "&"} {
 				k := out[i]
@@ -499,12 +502,30 @@ func cases() []kase {
 			}
 		}
 	}
+	if tier == "thorough" {
+		// every pair of tainted positions (interactions between two hostile values on one page) on the
+		// surfaces that render whole records, and lead x suffix combined on every single position
+		for _, s := range []string{"publish-show", "publish-placeholder", "diff-all-tainted-both", "diff-all-tainted-left", "query-6"} {
+			for i, p := range positions {
+				for _, q := range positions[i+1:] {
+					out = append(out, kase{Tainted: []string{p, q}, Surface: s})
+				}
+			}
+		}
+		for _, s := range surfaces() {
+			for _, p := range positions {
+				for _, lead := range []string{"<", "\"", "&", "'", ">"} {
+					out = append(out, kase{Tainted: []string{p}, Surface: s, Lead: lead, Suffix: "&nbsp;z"})
+				}
+			}
+		}
+	}
 	return out
 }
 
 func run(tier, unit string, r *vlib.Rec) {
 	_, lo, hi := vlib.ParseChunk(unit)
-	cs := cases()
+	cs := cases(tier)
 	after := vlib.After(unit)
 	for i := lo; i < hi; i++ {
 		k := cs[i]
@@ -535,7 +556,7 @@ func run(tier, unit string, r *vlib.Rec) {
 	}
 }
 
-func plan(tier string) []string { return vlib.Chunks("cases", int64(len(cases())), 12) }
+func plan(tier string) []string { return vlib.Chunks("cases", int64(len(cases(tier))), 12) }
 
 func replay(c json.RawMessage) (string, string) {
 	var k kase
